@@ -1,9 +1,11 @@
 package main
 
-func genTagsAll(c *Ctx) string { return genHeader }
-func genVerify(c *Ctx) string  { return genHeader }
+import "sort"
+
 func genReader(c *Ctx) string  { return genHeader }
 func genWriter(c *Ctx) string  { return genHeader }
 func genJson(c *Ctx) string    { return genHeader }
 func genServer(c *Ctx) string  { return genHeader }
 func genEffects(c *Ctx) string { return genHeader }
+
+func sortStrings(s []string) { sort.Strings(s) }
